@@ -412,6 +412,9 @@ func (o *Obligation) SMT(withModel bool, forCVC5 bool) string {
 		fmt.Fprintf(&sb, "(assert %s)\n", a)
 	}
 	for _, a := range strAx {
+		if o.noQuant && o.Expect == "sat" && a.K == TQuant {
+			continue // satisfiability checks run on the quantifier-free part only
+		}
 		if o.noQuant && a.K == TQuant && !strings.Contains(a.String(), "(idx ") && !strings.Contains(a.String(), "dec") && !strings.Contains(a.String(), "denomAt") && !strings.Contains(a.String(), "toBech32") {
 			continue
 		}
